@@ -31,6 +31,9 @@ func rewardVariant(k int64) sdk.Coins {
 		}
 		return out
 	}
+	if kernel.Mod(k, 48) == 39 {
+		return sdk.Coins{sdk.NewCoin(node.Denom, sdk.NewIntWithDecimal(11, 18))} // 11 whole coins per block (> 2^63 base units)
+	}
 	switch kernel.Mod(k, 16) {
 	case 13:
 		// denominations that start with digits or a blank followed by a valid denomination (amount and
